@@ -443,6 +443,25 @@ func TestCheck(t *testing.T) {
 			kpar.Must(t, evid.Batch[Case]{Cases: pool[lo:hi], Workers: 8, Rounds: 3}, true, "concurrent-batch")
 		}
 	})
+	// histories: earlier results must survive later signings
+	kSeq := evid.NewKind(rec, "history", judgeSeq)
+	rec.Rapid(t, "history", rec.N(250, 2500), func(rt *rapid.T) {
+		n := rapid.IntRange(2, 5).Draw(rt, "steps")
+		var sc SeqCase
+		same1559 := 0
+		for i := 0; i < n; i++ {
+			c := Case{Tx: genTx(rt, 2000), Key: genKey(rt), ChainID: genChainID(rt), Mode: rapid.SampledFrom(modes).Draw(rt, "mode")}
+			if c.Tx.ResolveMode(c.Mode) == txmodel.ModeEIP1559 {
+				same1559++
+			}
+			sc.Steps = append(sc.Steps, c)
+		}
+		cl := "history:mixed-modes"
+		if same1559 >= 2 {
+			cl = "history:>=2-eip1559-steps"
+		}
+		kSeq.Check(rt, sc, true, cl)
+	})
 	// the exact data-length boundaries named in the quantifier, every mode
 	t.Run("data-boundaries", func(t *testing.T) {
 		one := "1"
@@ -465,6 +484,7 @@ func TestReplay(t *testing.T) {
 	rec := evid.Start("C01", rule)
 	evid.NewKind(rec, "sign", judge)
 	evid.NewKind(rec, "concurrent", evid.ParallelJudge(judge))
+	evid.NewKind(rec, "history", judgeSeq)
 	rec.Replay(t)
 }
 
